@@ -667,7 +667,9 @@ static void rt_flow(Ctx &c, int ci, int kind)
                 Item h;
                 h.kind = Item::H;
                 h.step = sidx;
-                h.tag = "C06";
+                // C06: handlers receive the automatically formatted text; C10: re-invocation on a freshly formatted
+                // buffer; C19: the TEST text lists every variable
+                h.tag = kind == K_READ ? "C06,C10" : "C06,C10,C19";
                 h.rule = kind == K_READ ? "read-handler-args" : "test-handler-args";
                 h.cmd = ci;
                 h.hkind = kind;
